@@ -197,6 +197,41 @@ pub fn gen(tier: &str, seed: u64, out: &mut dyn FnMut(Value)) {
             }
         }
     }
+    // templates and the rules that use them: every history of length <= 4 over a small alphabet of its own (a template
+    // document is accepted or rejected as a whole; a rule is rewritten with what is defined when it is loaded)
+    {
+        let talpha = vec![
+            json!({"k": "tpl", "doc": [["t", "1"]]}),
+            json!({"k": "tpl", "doc": [["t", "9"], ["u", "2"], ["v", "3"]]}),
+            json!({"k": "tpl", "doc": [["u", "5"]]}),
+            json!({"k": "tpl", "doc": [["v", "{{t}}"], ["w", "{"]]}),
+            json!({"k": "load", "docs": [rule("UV", &[("$a", ".x == '{{u}}{{v}}{{t}}{{w}}'")], Some("$a"))]}),
+            json!({"k": "load", "docs": [rule("A", &[("$a", ".x == 'a{{{t}}}b'"), ("$b", ".y == '{{{{t}}}}{{t}}}'")], Some("$a or $b"))]}),
+            json!({"k": "compile"}),
+        ];
+        for n in 1..=4usize {
+            let mut idx = vec![0usize; n];
+            'outer: loop {
+                let mut ops: Vec<Value> = idx.iter().map(|i| talpha[*i].clone()).collect();
+                ops.extend(tail.clone());
+                out(json!({"op": "history", "ops": ops, "tag": "templates and rules, exhaustive length <= 4", "nt": true}));
+                let mut k = n;
+                loop {
+                    if k == 0 {
+                        break 'outer;
+                    }
+                    k -= 1;
+                    if idx[k] + 1 < talpha.len() {
+                        idx[k] += 1;
+                        for x in idx.iter_mut().skip(k + 1) {
+                            *x = 0;
+                        }
+                        break;
+                    }
+                }
+            }
+        }
+    }
     let alpha = full;
     let mut rng = Rng::new(seed);
     let n = if thorough { 200000 } else { 12000 };
